@@ -422,6 +422,24 @@ def dyadic_box(rng, d, positive=False):
     return box
 
 
+def bitdeg(e, vbits):
+    """upper bound on the number of significant bits of the exact value of e when every variable is a dyadic
+    number of at most `vbits` bits: binary64 evaluates e exactly when this is <= 53"""
+    t = e[0]
+    if t == "v":
+        return vbits
+    if t == "c":
+        f = F(e[1])
+        return max(1, f.numerator.bit_length()) + max(0, f.denominator.bit_length() - 1)
+    if t == "pow":
+        return e[2] * bitdeg(e[1], vbits)
+    if t in ("add", "sub"):
+        return max(bitdeg(e[1], vbits), bitdeg(e[2], vbits)) + 1
+    if t == "mul":
+        return bitdeg(e[1], vbits) + bitdeg(e[2], vbits)
+    return 999
+
+
 def configs(rng, d, pow2, budget):
     """the runs of one case: direct, endpoints and subinterval x {direct,endpoints} x a few n_sub"""
     ns_all = [1, 2, 4, 8] if pow2 else [1, 2, 3, 4, 5, 6, 7, 8]
@@ -437,10 +455,17 @@ def configs(rng, d, pow2, budget):
 def gen_cases(ctx):
     rng = ctx.rng
     cases = []
-    budget = ctx.scale(300, 1300)
+    budget = ctx.scale(300, 600)
 
     def add(stream, e, box, form="L", exact=False, mono=False, cf=None, **kw):
         d = len(box)
+        if cf is None:
+            cf = configs(rng, d, exact, budget)
+        if exact:
+            # exact only while binary64 cannot round: |x| <= 4 (3 bits) plus log2(n_sub) fractional bits per variable
+            nmax = max([n for (_, _, n) in cf if n] + [1])
+            if bitdeg(e, 3 + max(nmax, 1).bit_length()) > 52:
+                exact = False
         cases.append(dict(stream=stream, e=e, box=[tuple(b) for b in box], form=form, exact=exact, mono=mono,
                           cf=cf if cf is not None else configs(rng, d, exact, budget), **kw))
 
@@ -454,13 +479,13 @@ def gen_cases(ctx):
             cf=[("direct", None, None), ("endpoints", None, None), ("subinterval", "direct", 3), ("subinterval", "endpoints", 3),
                 ("subinterval", "direct", 1), ("subinterval", "endpoints", 4)])
     # A. exact stream: integer boxes, + - * pow, power-of-two subdivision
-    for _ in range(ctx.scale(110, 1100)):
+    for _ in range(ctx.scale(110, 550)):
         d = rng.choice([1, 2, 2, 3, 3, 4])
         e = gen_expr(rng, d, rng.choice([2, 3, 3, 4]), ["add", "sub", "mul", "mul", "pow"], [-3, -2, -1, 2, 3, 5])
         form = rng.choice(["L", "L", "V", "T"]) if d > 1 else rng.choice(["L", "V", "S"])
         add("exact", e, int_box(rng, d), form=form, exact=True)
     # B. general stream: dyadic boxes, division, exp, sqrt, any n_sub
-    n_b = ctx.scale(110, 1100)
+    n_b = ctx.scale(110, 550)
     tries = 0
     while n_b > 0 and tries < 100000:
         tries += 1
@@ -476,7 +501,7 @@ def gen_cases(ctx):
         add("general", e, box, form=form)
         n_b -= 1
     # C. monotone by construction
-    for _ in range(ctx.scale(60, 600)):
+    for _ in range(ctx.scale(60, 300)):
         d = rng.choice([1, 2, 3, 4])
         box = dyadic_box(rng, d, positive=rng.random() < 0.4)
         e = mono_expr(rng, d, box)
@@ -852,7 +877,7 @@ def oracle_case(ctx, rng, ci, c, results, captured):
         SD = R(("subinterval", "direct", n))
         SE = R(("subinterval", "endpoints", n))
         cfd, cfe = ("subinterval", "direct", n), ("subinterval", "endpoints", n)
-        lat = lattice(box, n, ctx.scale(700, 2500))
+        lat = lattice(box, n, ctx.scale(700, 1500))
         lvals = None
         if lat is not None:
             lv = [evq(e, p) for p in lat]
